@@ -28,6 +28,19 @@ type slashEval struct {
 	ambiguous map[string]bool        // validator|denom where the full-withdraw rounding decision is within fixed-point error
 }
 
+// redistribution is the factor by which every remaining position of an asset grows because the value cut from
+// redelegation destinations left their validators: the asset's validator-share total before / after those cuts.
+func (ev *slashEval) redistribution(denom string) *big.Rat {
+	if ev.scaled == nil {
+		return big.NewRat(1, 1)
+	}
+	a, b := ev.scaled.S[denom], ev.model.S[denom]
+	if a == nil || b == nil || b.Sign() <= 0 {
+		return big.NewRat(1, 1)
+	}
+	return rquo(a, b)
+}
+
 // evalSlashes advances the ledger and builds the models. Must be called exactly once per step.
 func evalSlashes(l *Ledger, st *Step) *slashEval {
 	ev := &slashEval{pre: st.Pre, post: st.Post, cuts: map[string]sdkmath.Int{}, destPos: map[PosKey]bool{}, ambiguous: map[string]bool{}}
@@ -199,7 +212,9 @@ func (m *monC06) OnStep(r *Runner, st *Step) {
 		if ev.destPos[p] || ev.ambiguous[p.Val+"|"+p.Denom] {
 			continue
 		}
-		base := ev.scaled.PosValue(p)
+		// (value taken from redelegation destinations leaves their validator like a bonded slash does: the asset's
+		// validator-share total shrinks and every remaining position scales by the same second factor)
+		base := rmul(ev.scaled.PosValue(p), ev.redistribution(p.Denom))
 		got := post.PosValue(p)
 		tol := tolMax(pre, post, p.Val, p.Denom, maxRat(base, got))
 		if got.Cmp(rsub(base, tol)) < 0 {
@@ -208,17 +223,15 @@ func (m *monC06) OnStep(r *Runner, st *Step) {
 		}
 		dPre := ratDec(decCoinsAmount(pre.ValInfos[p.Val].TotalDelegatorShares, p.Denom))
 		dPost := ratDec(decCoinsAmount(post.ValInfos[p.Val].TotalDelegatorShares, p.Denom))
-		if dPre.Cmp(dPost) == 0 {
-			// no redistribution on this validator: equality
-			if !within(base, got, tol) {
-				r.Violate("C06.a", "position-gained-value", fmt.Sprintf("slash of %s by %s: position %s worth %s, proportional rule gives %s", short(ev.val), rstr(ev.f), p, rstr(got), rstr(base)))
-				return
-			}
-		} else {
-			r.Probe("c06_redistribution_on_destination")
+		if !within(base, got, tol) {
+			r.Violate("C06.a", "position-gained-value", fmt.Sprintf("slash of %s by %s: position %s worth %s, proportional rule gives %s", short(ev.val), rstr(ev.f), p, rstr(got), rstr(base)))
+			return
+		}
+		if dPre.Cmp(dPost) != 0 {
+			r.Probe("c06_bystander_on_slashed_destination_validator")
 		}
 		// assets without stake on V: untouched exactly
-		if getRR(ShareStateOf(pre).VS, ev.val, p.Denom).Sign() == 0 {
+		if getRR(ShareStateOf(pre).VS, ev.val, p.Denom).Sign() == 0 && ev.redistribution(p.Denom).Cmp(big.NewRat(1, 1)) == 0 {
 			r.Eval("C06.c")
 			if !pre.Dels[p].Shares.Equal(post.Dels[p].Shares) || pre.PosValue(p).Cmp(post.PosValue(p)) != 0 {
 				if dPre.Cmp(dPost) == 0 {
@@ -349,10 +362,17 @@ func (m *monC07) OnStep(r *Runner, st *Step) {
 		}
 		base := ev.scaled.PosValue(p)
 		loss := minRat(byPos[p], base)
-		want := rsub(base, loss)
+		// the value cut from destinations is redistributed over the asset entry by entry: a position loses its
+		// f x amount somewhere between "before any of that redistribution" and "after all of it"
+		G := ev.redistribution(p.Denom)
+		want := rmul(rsub(base, loss), G)
+		wantHi := rsub(rmul(base, G), byPos[p])
+		if wantHi.Cmp(want) < 0 {
+			wantHi = want
+		}
 		got := post.PosValue(p)
 		tol := radd(tolMax(st.Pre, post, p.Val, p.Denom, maxRat(base, byPos[p])), big.NewRat(int64(len(ev.groups)), 1))
-		if within(want, got, tol) {
+		if got.Cmp(rsub(want, tol)) >= 0 && got.Cmp(radd(wantHi, tol)) <= 0 {
 			continue
 		}
 		// deviation from the statement that the as-implemented model reproduces: classify by precondition
@@ -360,7 +380,7 @@ func (m *monC07) OnStep(r *Runner, st *Step) {
 		switch {
 		case merged[p]:
 			cls = "redel-merged-sources"
-		case got.Cmp(want) > 0:
+		case got.Cmp(wantHi) > 0:
 			// the slashed value is redistributed among the delegators of the destination validator,
 			// the slashed position included
 			cls = "redel-slash-redistributed-within-destination"
